@@ -26,7 +26,7 @@ Open Scope list_scope.
    common context, and per event log level / context / payload with all field types at every nesting
    depth and explicit enumeration ranges; identifier and file name prefixes; header options.
    valid_v2 = the barectf 2 reading is defined (which implies the shape constraints of
-   schemas/config/2) + hypotheses H1-H6 of V2Sem.v, each shown necessary below by a refutation whose
+   schemas/config/2) + hypotheses H2-H6 of V2Sem.v, each shown necessary below by a refutation whose
    witness the real code reproduces (findings).  "Absent in barectf 2 = absent in the twin" (S17). *)
 Theorem C18_equiv_partial : forall fuel t g,
   v2_sem fuel t = Some g -> valid_v2 fuel t = true ->
@@ -35,7 +35,7 @@ Proof. exact config_equiv. Qed.
 Print Assumptions C18_equiv_partial.
 
 (* the statement at full strength (no valid_v2) is FALSE of the faithful model, hence of /repo:
-   what is missing from C18_equiv_partial is exactly H1-H6, and they cannot be removed *)
+   what is missing from C18_equiv_partial is exactly H2-H6, and they cannot be removed *)
 Theorem C18_equiv_refuted : ~ (forall fuel t g, v2_sem fuel t = Some g -> exists t', conv_config t = Ok t' /\ v3_sem fuel t' = Some g).
 Proof. exact equiv_full_refuted. Qed.
 Print Assumptions C18_equiv_refuted.
@@ -81,8 +81,7 @@ Print Assumptions C18_equiv_clock.
    For every barectf 2 field type node the barectf 2 reading understands (any nesting of arrays and
    structures; all class spellings; signed / align / base / byte-order / encoding / property-mappings;
    enumeration members implicit, explicit and ranges; static and dynamic arrays; min-align), provided no
-   floating point type carries `byte-order` and no structure has `fields: null` (ft_conv_ok, see the
-   refutations below), the converter succeeds and its output, read as barectf 3 says, is the same
+   structure has `fields: null` (ft_conv_ok, see the refutations below), the converter succeeds and its output, read as barectf 3 says, is the same
    abstract field type — minus the clock mapping, which barectf 3 does not carry in a field type
    (erase_clk; the mapping is remembered for the default clock, see C18_default_clock_inference). *)
 Theorem C18_field_type_conv_partial : forall fuel y f,
@@ -91,12 +90,10 @@ Theorem C18_field_type_conv_partial : forall fuel y f,
 Proof. exact ft_equiv. Qed.
 Print Assumptions C18_field_type_conv_partial.
 
-(* without ft_conv_ok the statement is false: `fields: null` crashes the converter, a float with `byte-order`
-   converts to a node barectf 3 does not accept *)
+(* without ft_conv_ok (= no structure with `fields: null`) the statement is false: `fields: null` crashes the converter *)
 Theorem C18_field_type_conv_refuted :
   ~ (forall fuel y f, v2_ft fuel y = Some f -> exists y', conv_ft y = Ok y' /\ v3_ft fuel y' = Some (erase_clk f))
-  /\ (v2_ft 2 w_ft_fields_null = Some (FStruct None []) /\ conv_ft w_ft_fields_null = Crash)
-  /\ (v2_ft 2 w_ft_real_bo = Some (FReal 32 None) /\ exists y', conv_ft w_ft_real_bo = Ok y' /\ v3_ft 2 y' = None).
+  /\ (v2_ft 2 w_ft_fields_null = Some (FStruct None []) /\ conv_ft w_ft_fields_null = Crash).
 Proof. exact ft_full_refuted. Qed.
 Print Assumptions C18_field_type_conv_refuted.
 
@@ -186,8 +183,7 @@ Print Assumptions C18_feature_inference.
 (* ------------------------------------------------------------------ version detection
    A root mapping carrying the barectf 3 tag is 3, an untagged root mapping (whatever its `version`
    property) is 2 — for configuration_file_major_version and for the parser dispatch; anything that is
-   not a mapping is not Ok (tag on a non-mapping: configuration error; untagged non-mapping: assertion
-   failure in _config_file_major_version = known finding S5 of C10). *)
+   not a mapping is not Ok (configuration error in both cases, since fix b10375b of /repo). *)
 Theorem C18_version_detect :
   (forall l, major_version true (YMap l) = Ok 3%Z)
   /\ (forall l, major_version false (YMap l) = Ok 2%Z)
@@ -201,9 +197,10 @@ Print Assumptions C18_version_detect.
    `disagrees w`: the barectf 2 reading of w is defined, and the converter's output (if any) does not
    read as the same abstract configuration.  Each witness is replayed on the real code on every run
    (harness/props/c18_probes.py); the real code shows every one of these deviations. *)
-Theorem C18_equiv_without_H1_refuted : disagrees w_real_byte_order.        (* float with `byte-order` *)
-Proof. exact H1_real_byte_order_refuted. Qed.
-Print Assumptions C18_equiv_without_H1_refuted.
+(* H1 (no float with `byte-order`) is retired: /repo fix 3990a98 drops the property in _conv_real_ft_node; its
+   former witness is now inside valid_v2 (regression input of the harness: must generate what its twin generates) *)
+Example C18_former_H1_witness_is_valid : valid_v2 10 w_real_byte_order = true.
+Proof. exact w_real_byte_order_now_valid. Qed.
 Theorem C18_equiv_without_H2_refuted : disagrees w_fields_null /\ conv_config w_fields_null = Crash.   (* `fields: null` *)
 Proof. exact H2_fields_null_refuted. Qed.
 Print Assumptions C18_equiv_without_H2_refuted.
